@@ -261,3 +261,212 @@ def c17(tier):
                              extra_cov={'enumerated_cases': len(paths), 'limits': sorted(C17_LIMITS) + ['last-frame-65535']})
     finally:
         shutil.rmtree(d, ignore_errors=True)
+
+# ---- C14: purity / repeatability in-process, definedness by cross-process poisoning ------------------
+def _fnv(text):
+    h = 1469598103934665603
+    for ch in text.encode('latin-1', 'replace'):
+        h ^= ch; h = (h * 1099511628211) & 0xFFFFFFFFFFFFFFFF
+    return '%016x' % h
+
+def _c14_poison_pair(plain_replay, case_paths, tier, keep_dir=None, valgrind=False):
+    """Runs the cases in two processes with different heap/stack poison; returns (digests_a, digests_b, outputs)."""
+    import os, subprocess
+    res = []
+    import uuid
+    tok = '%d-%s' % (os.getpid(), uuid.uuid4().hex[:8])
+    lst = os.path.join(V.WORK, 'c14-list-%s.txt' % tok)
+    with open(lst, 'w') as f:
+        f.write('\n'.join(case_paths) + '\n')
+    procs = []
+    for tag, byte in (('a', 0x11), ('b', 0x77)):
+        dg = os.path.join(V.WORK, 'c14-digest-%s-%s.txt' % (tag, tok))
+        st = os.path.join(V.WORK, 'c14-stats-%s-%s.json' % (tag, tok))
+        for q in (dg, st):
+            if os.path.exists(q):
+                os.remove(q)
+        env = V.base_env({'VERIF_TIER': tier, 'MALLOC_PERTURB_': str(byte), 'VERIF_STACK_BYTE': str(byte), 'GLIBC_TUNABLES': 'glibc.malloc.tcache_count=0',
+                          'VERIF_DIGEST_OUT': dg, 'VERIF_OPEN_FINDINGS': ' '.join(k['id'] for k in V.open_findings())})
+        if keep_dir:
+            os.makedirs(os.path.join(keep_dir, tag), exist_ok=True)
+            env['VERIF_KEEP_DIR'] = os.path.join(keep_dir, tag)
+        cmd = [plain_replay, '--batch', lst, st, 'C14']
+        p = subprocess.Popen(cmd, stdout=subprocess.PIPE, stderr=subprocess.STDOUT, text=True, errors='replace', env=env)
+        procs.append((p, dg, st))
+    out = []
+    for p, dg, st in procs:
+        o, _ = p.communicate()
+        d = {}
+        if os.path.exists(dg):
+            with open(dg) as f:
+                for line in f:
+                    a = line.split()
+                    if len(a) == 3:
+                        d[a[0]] = (a[1], int(a[2]))
+            os.remove(dg)
+        if os.path.exists(st):
+            os.remove(st)
+        out.append((d, p.returncode, o))
+    os.remove(lst)
+    return out
+
+def _first_diff_offset(pa, pb):
+    with open(pa, 'rb') as f:
+        a = f.read()
+    with open(pb, 'rb') as f:
+        b = f.read()
+    n = min(len(a), len(b))
+    diffs = [i for i in range(n) if a[i] != b[i]]
+    return diffs[:8], len(diffs), len(a), len(b)
+
+@reg('C14')
+def c14(tier):
+    import os, shutil, subprocess, time, glob
+    t0 = time.time()
+    res = V.Result()
+    try:
+        bins = V.B.build('asan', ('pbt', 'replay'))
+        plain = V.B.build('plain', ('replay',))
+    except RuntimeError as e:
+        res.broken = 'build failed: ' + str(e)[:2000]
+        return V.finish('C14', tier, 'exploration', res, {'evaluations': 0, 'distinct_nontrivial': 0, 'rule': '', 'samples': []}, t0)
+    n = 60000 if tier == 'thorough' else 3000
+    shards = 16 if tier == 'thorough' else 8
+    m = V.run_pbt_shards('C14', bins, n, 100, shards, tier)
+    env = {'VERIF_TIER': tier, 'VERIF_OPEN_FINDINGS': ' '.join(k['id'] for k in V.open_findings())}
+    seen = set()
+    for f in m['fails']:
+        if f['text'] is None:
+            res.broken = 'harness crashed without a current case: ' + f['msg'][-800:]; continue
+        if f['text'] in seen:
+            continue
+        seen.add(f['text'])
+        V.confirm_and_report(res, 'C14', bins['replay'], f['text'], f['msg'], f['crash'], env)
+    # cross-process poison differential on a frozen corpus
+    ncorp = 20000 if tier == 'thorough' else 1000
+    cdir = os.path.join(V.WORK, 'c14-corpus-%d' % os.getpid())
+    shutil.rmtree(cdir, ignore_errors=True); os.makedirs(cdir)
+    nsh = 16 if tier == 'thorough' else 4
+    procs = []
+    for i in range(nsh):
+        sd = os.path.join(cdir, 's%d' % i); os.makedirs(sd)
+        procs.append(subprocess.Popen([bins['pbt'], 'C14', '--n', str(ncorp // nsh), '--seed', str(V.seed() * 1000 + 500 + i), '--emit', sd, '--work', V.WORK],
+                                      stdout=subprocess.DEVNULL, stderr=subprocess.DEVNULL, env=V.base_env({'VERIF_TIER': tier})))
+    for p in procs:
+        p.wait()
+    cases = sorted(glob.glob(os.path.join(cdir, 's*', '*.case'))) + V.corpus_cases('C14')
+    pairs_checked = 0; undefined = 0
+    chunks = [cases[i::nsh] for i in range(nsh)]
+    from concurrent.futures import ThreadPoolExecutor
+    def work(chunk):
+        return chunk, _c14_poison_pair(plain['replay'], chunk, tier) if chunk else None
+    with ThreadPoolExecutor(max_workers=nsh) as ex:
+        results = list(ex.map(work, chunks))
+    for chunk, out in results:
+        if not out:
+            continue
+        (da, rca, oa), (db, rcb, ob) = out
+        if rca not in (0, 1) or rcb not in (0, 1):
+            res.cov.setdefault('inconclusive', []).append('poison run exited %s/%s: %s' % (rca, rcb, (oa + ob)[-300:]))
+        by_hash = {}
+        for pth in chunk:
+            with open(pth) as f:
+                by_hash[_fnv(f.read())] = pth
+        for h, (dg, sz) in da.items():
+            if h in db:
+                pairs_checked += 1
+                if db[h] != (dg, sz):
+                    undefined += 1
+                    if undefined <= 3 and h in by_hash:
+                        keep = os.path.join(V.WORK, 'c14-keep-%d-%d' % (os.getpid(), undefined))
+                        _c14_poison_pair(plain['replay'], [by_hash[h]], tier, keep_dir=keep)
+                        fa = os.path.join(keep, 'a', h + '.c3d'); fb = os.path.join(keep, 'b', h + '.c3d')
+                        detail = ''
+                        if os.path.exists(fa) and os.path.exists(fb):
+                            offs, nd, la, lb = _first_diff_offset(fa, fb)
+                            detail = 'files saved by two processes with different heap/stack poison differ at %d offsets (first %s; sizes %d/%d): those bytes are not determined by the object' % (nd, offs, la, lb)
+                        shutil.rmtree(keep, ignore_errors=True)
+                        with open(by_hash[h]) as f:
+                            path = V.save_replay('C14', f.read(), detail)
+                        res.violations.append((path, detail))
+    # thorough: the same saves under valgrind memcheck
+    vg_cases = 0; vg_errors = 0
+    if tier == 'thorough':
+        sub = cases[:2000]
+        vchunks = [sub[i::16] for i in range(16)]
+        def vwork(chunk):
+            if not chunk:
+                return chunk, 0, ''
+            lst = os.path.join(V.WORK, 'c14-vg-%d-%d.txt' % (os.getpid(), abs(hash(chunk[0])) % 100000))
+            with open(lst, 'w') as f:
+                f.write('\n'.join(chunk) + '\n')
+            cmd = ['valgrind', '-q', '--error-exitcode=9', '--track-origins=no', plain['replay'], '--batch', lst, lst + '.json', 'C14']
+            r = subprocess.run(cmd, stdout=subprocess.PIPE, stderr=subprocess.STDOUT, text=True, errors='replace', env=V.base_env({'VERIF_TIER': tier}))
+            for q in (lst, lst + '.json'):
+                if os.path.exists(q):
+                    os.remove(q)
+            return chunk, r.returncode, r.stdout
+        with ThreadPoolExecutor(max_workers=16) as ex:
+            for chunk, rc, out in ex.map(vwork, vchunks):
+                vg_cases += len(chunk)
+                if rc == 9 or 'uninitialised' in out:
+                    vg_errors += 1
+                    lines = [l for l in out.splitlines() if 'uninitialised' in l or 'ezc3d' in l][:6]
+                    if vg_errors <= 2 and chunk:
+                        with open(chunk[0]) as f:
+                            path = V.save_replay('C14', f.read(), 'valgrind: ' + ' | '.join(lines))
+                        res.violations.append((path, 'valgrind memcheck reports uninitialised bytes while saving: ' + ' | '.join(lines)[:600]))
+    shutil.rmtree(cdir, ignore_errors=True)
+    for k, v in m['known'].items():
+        res.known[k] = res.known.get(k, 0) + v
+    cov = {'evaluations': m['evaluations'] + pairs_checked, 'distinct_nontrivial': len(m['nt']), 'rule': m['nt_rule'], 'samples': m['samples'][:4],
+           'case_classes': m['tags'], 'discards': m['discards'], 'in_process_cases': m['evaluations'],
+           'cross_process_pairs_compared': pairs_checked, 'cross_process_pairs_differing': undefined,
+           'valgrind_cases': vg_cases, 'valgrind_chunks_with_errors': vg_errors,
+           'engine': 'rapidcheck under asan (purity, double save) + frozen corpus replayed by two plain processes with MALLOC_PERTURB_ 0x11/0x77, tcache off, stack painted before every save'}
+    return V.finish('C14', tier, 'exploration', res, cov, t0, floor=100,
+                    assumptions=['definedness is established per executed case only (two poison patterns; a byte that is undefined but happens to be equal under both is missed; thorough adds valgrind memcheck)',
+                                 'frames complete and content within capacity when saved'])
+
+def c14_replay(path):
+    import os
+    plain = V.B.build('plain', ('replay',))
+    asan = V.B.build('asan', ('replay',))
+    rc, out = V.run_replay(asan['replay'], path, 'C14')
+    print(out, end='')
+    if rc == 1 or V.is_crash(rc, out):
+        print('VIOLATION property=C14 replay=%s' % path); return 1
+    (da, rca, oa), (db, rcb, ob) = _c14_poison_pair(plain['replay'], [path], 'quick')
+    if da and db and list(da.values()) != list(db.values()):
+        print('saved bytes differ between two processes with different heap/stack poison')
+        print('VIOLATION property=C14 replay=%s' % path); return 1
+    print('PASS (cross-process digests equal)')
+    return 0
+REPLAYERS['C14'] = c14_replay
+
+@reg('C15')
+def c15(tier):
+    import os, shutil
+    d = os.path.join(V.WORK, 'c15-enum-%d' % os.getpid())
+    os.makedirs(d, exist_ok=True)
+    objs = {
+        'small': 'declp 1 0\nprate 8\nfbuild 0 0 3\nfsub 0 0 0\n',
+        'medium': 'limit 6 20\nlimit 7 6\nprate 8\narate 3\nlimit 8 12\nparam 4 1 2 0 40 9 3 0\n',
+        'large': 'limit 6 255\nprate 8\nlimit 8 70\n',
+        'empty': 'obs\n',
+    }
+    paths = []
+    for n, body in objs.items():
+        p = os.path.join(d, n + '.case')
+        with open(p, 'w') as f:
+            f.write('property: C15\n' + body)
+        paths.append(p)
+    try:
+        return V.generic_pbt('C15', tier, n_quick=48, n_thorough=800, size_quick=40, size_thorough=70, level='fault_enumeration', floor=20, extra_cases=paths,
+                             shards_quick=16, shards_thorough=16,
+                             assumptions=['faults: missing directory, path through a file, directory as target, read-only file (effective uid dropped), /dev/full, RLIMIT_FSIZE=k with SIGXFSZ ignored',
+                                          'objects whose output is <= 6000 bytes (thorough: 20000) get a failure injected at EVERY offset; larger ones every 97th (thorough 7th) byte plus block and stream-buffer boundaries +-1',
+                                          'any std::exception counts as "reported"; the class is recorded in counters'],
+                             extra_cov={'directed_objects': sorted(objs)})
+    finally:
+        shutil.rmtree(d, ignore_errors=True)
